@@ -25,6 +25,8 @@ def fstring_features(src):
     prev = None
     sig = [t for t in toks if t.type not in (pytok.NL, pytok.COMMENT)]
     for i, t in enumerate(sig):
+        if depth and depth[-1]["spec"] and depth[-1]["spec"][-1] == depth[-1]["brace"] and prev is not None and t.start[0] > prev.end[0]:
+            feats.add("newline-in-spec")     # a line break between two tokens of a format spec (whatever the field itself contains)
         if t.type == pytok.FSTRING_START:
             if depth:
                 feats.add("nested-fstring")
